@@ -73,6 +73,24 @@ def load_known_findings():
     return known, fixed
 
 
+def match_known(v, known):
+    """a violation is a known finding iff an entry has the same identity key and its optional witness_regex / detail_regex
+    (which pin the entry to the specific failing input shape) match"""
+    import re
+    key = finding_key(v)
+    w = v.get('witness')
+    wtxt = w if isinstance(w, str) else json.dumps(w, ensure_ascii=False)
+    for k in known:
+        if finding_key(k) != key:
+            continue
+        if k.get('witness_regex') and not re.search(k['witness_regex'], wtxt or ''):
+            continue
+        if k.get('detail_regex') and not re.search(k['detail_regex'], str(v.get('detail') or '')):
+            continue
+        return k
+    return None
+
+
 def finding_key(v):
     """identity of a violation: property, module, function, options, kind, exception type, innermost repo frame"""
     return '|'.join(str(v.get(k, '')) for k in ('property', 'module', 'func', 'options', 'kind', 'exc_type', 'frame'))
@@ -203,9 +221,6 @@ class Report:
     def finish(self):
         """writes evidence, prints KNOWN-FINDING / VIOLATION lines, returns exit code"""
         known, fixed = load_known_findings()
-        known_keys = {}
-        for k in known:
-            known_keys.setdefault(finding_key(k), k)
         new, seen_known = [], {}
         dedup = {}
         for v in self.violations:
@@ -215,7 +230,8 @@ class Report:
                 dedup[key]['count'] = dedup[key].get('count', 1) + 1
                 continue
             dedup[key] = v
-            if key in known_keys:
+            k = match_known(v, known)
+            if k is not None:
                 seen_known[key] = v
             else:
                 new.append(v)
